@@ -1,7 +1,7 @@
 CONSTANTS
   Variant = "orig_retry0"
   Family = "render"
-  Size = "q"
+  Size = "m"
 INIT Init
 NEXT Next
 CHECK_DEADLOCK FALSE
